@@ -380,7 +380,7 @@ Definition apply_func (name : bstr) (args : list value) : outcome fres :=
     | [VInt i; VInt lim] => Ok (FNewList (range_list (Z.to_nat (lim - i)) i lim 1))
     | [VInt i; VInt lim; VInt step] =>
         if (step <=? 0)%Z then Err e_range
-        else Ok (FNewList (range_list (Z.to_nat (lim - i)) i lim step))
+        else Ok (FNewList (range_list (Z.to_nat ((lim - i) / step + 1)) i lim step))   (* fuel >= the number of elements *)
     | _ => Err e_type
     end
   else if fn_is name n_hasData then Ok (FVal (VBool true))
@@ -715,12 +715,15 @@ Definition walk_node (n : node) : M value :=
   | NSwitch _ v cases => sv <-- eval v ;;; switch_cases sv cases
   | NLetValue _ name e => v <-- eval e ;;; _ <-- m_set name v ;;; ret VUndef
   | NLetContent _ name body => s <-- render_block body ;;; _ <-- m_set name (VStr s) ;;; ret VUndef
-  | NCall _ name alldata dat params =>
+  | NCall p name alldata dat params =>
       match find_template (r_templates (c_reg cf)) name with
       | None => fail e_notemplate
       | Some callee =>
           cd <-- call_data alldata dat ;;;
           cd' <-- call_params params cd ;;;
+          (* evalCall: s.at(node) once the params are resolved -- a param's content block has moved
+             s.node into that block; a failure inside the callee is reported at this call *)
+          _ <-- modify (fun st => set_cur st p) ;;;
           call_enter callee cd'
       end
   | NTemplate _ _ body ae _ =>
